@@ -662,10 +662,16 @@ func (l *Legacy) Settle() {
 	if l.out == nil {
 		return
 	}
+	// A gateway that releases the tunnel closes RDG_OUT_DATA as well: end-of-stream is the exact barrier
+	// (everything written before it has been collected). Only when that does not happen within a second
+	// fall back to watching for a quiet period.
+	if l.WaitEOF(time.Second) {
+		return
+	}
 	last := -1
 	quiet := 0
 	deadline := time.Now().Add(2 * time.Second)
-	for quiet < 4 && time.Now().Before(deadline) {
+	for quiet < 8 && time.Now().Before(deadline) {
 		l.mu.Lock()
 		tot, eof := l.total, l.eof
 		l.mu.Unlock()
